@@ -1015,7 +1015,7 @@ class ComputeGraph(MultiDiGraph):
     def _resolve_derivatives(self, expr):
         """Replace ``Derivative(f(x), x)`` with known analytical forms.
 
-        Currently handles: ``identity`` (pass-through), ``sigmoid``, and ``absv``.
+        Currently handles: ``identity`` (pass-through), ``sigmoid``, ``absv`` and ``arctan``/``arcsin``/``arccos``.
         """
         import sympy as sp
         from sympy import Derivative, Function, Subs
@@ -1035,6 +1035,13 @@ class ComputeGraph(MultiDiGraph):
             lambda e: isinstance(e, Derivative) and e.expr.func.__name__ in ('absv', 'abs'),
             lambda e: Function('sign')(e.expr.args[0])
         )
+        # inverse trigonometric functions carry their numpy names (arctan, ...), which sympy does not know
+        for fname, rule in (('arctan', lambda a: 1 / (1 + a ** 2)), ('arcsin', lambda a: 1 / sp.sqrt(1 - a ** 2)),
+                            ('arccos', lambda a: -1 / sp.sqrt(1 - a ** 2))):
+            expr = expr.replace(
+                lambda e, fname=fname: isinstance(e, Derivative) and e.expr.func.__name__ == fname,
+                lambda e, rule=rule: rule(e.expr.args[0])
+            )
         # Sympy wraps chain-rule applications of identity/sigmoid/absv in
         # Subs(Derivative(f(_xi), _xi), _xi, real_arg) because these functions
         # have no fdiff defined.  Once the inner Derivative has been replaced
